@@ -13,7 +13,8 @@
 (***************************************************************************)
 EXTENDS Naturals, Sequences, FiniteSets, TLC, Json, IOUtils
 
-CONSTANTS EntryPoints, MinCalls
+CONSTANTS EntryPoints, MinCalls,
+          FaultEntryPoints   \* entry points exercised while a fault is injected (locks refused): a call may return no value
 
 Rec == ndJsonDeserialize(IOEnv.TRACE)
 
@@ -40,7 +41,7 @@ Draw(e, v) ==
 
 Done(e) ==
   /\ e \in EntryPoints /\ e \notin closed
-  /\ Cardinality(seen[e]) >= MinCalls
+  /\ (e \notin FaultEntryPoints => Cardinality(seen[e]) >= MinCalls)
   /\ varies[e] = 1..Len(first[e])       \* no byte position is constant
   /\ closed' = closed \cup {e}
   \* a closed entry point accepts no further draw, so its history is no longer needed (keeps the trace state small)
@@ -50,7 +51,10 @@ Done(e) ==
 IsEv(k) == l <= Len(Rec) /\ Rec[l].ev = k /\ l' = l + 1
 TDraw == IsEv("draw") /\ Draw(Rec[l].e, Rec[l].v)
 TDone == IsEv("done") /\ Done(Rec[l].e)
-TNext == TDraw \/ TDone
+\* under an injected fault a call may fail instead of returning a value; the history does not change
+NoValue(e) == e \in FaultEntryPoints /\ e \notin closed /\ UNCHANGED <<seen, first, varies, closed>>
+TNoValue == IsEv("novalue") /\ NoValue(Rec[l].e)
+TNext == TDraw \/ TDone \/ TNoValue
 TSpec == Init /\ [][TNext]_vars
 
 Accepted == LET d == TLCGet("stats").diameter IN
